@@ -166,6 +166,8 @@ class NeighborsMonitor(Monitor):
 
 
 def setup(concepts, spec):
+    from .. import probes
+    probes.install(['lindig'])
     cap = CAP[spec['tier']]
     attach.attach_ctor(concepts)
     attach.attach(concepts.contexts.LatticeMixin, 'neighbors', NeighborsMonitor(cap))
